@@ -786,3 +786,16 @@ def slice_sort_trivial(ctx, args, st):
         st.store(r, VecV([v.items[i] for i in order], v.ty))
         return ret(st, UNIT)
     raise Unsupported('slice::sort on symbolic elements')
+
+
+@model(r'^<(?:std::option::)?Option<(\w+)> as PartialEq>::(eq|ne)$')
+def option_prim_eq(ctx, args, st):
+    a, b = st.deref_all(args[0]), st.deref_all(args[1])
+    neg = ctx.callee.endswith('ne')
+    if a.variant != b.variant: return ret(st, Bool(neg))
+    if a.variant == 'None': return ret(st, Bool(not neg))
+    x, y = a.items[0], b.items[0]
+    if isinstance(x, (Int, Bool, Char)) and type(x) is type(y):
+        r = ctx.ex.binop('Ne' if neg else 'Eq', x, y)
+        return ret(st, r)
+    return None
